@@ -722,7 +722,7 @@ Section Field.
   (* documents: no set anywhere (a JSON document has none; the model reads a frozenset as a list, the source rejects
      it, and the source cannot index a set positionally); dicts are real dicts (hashable, pairwise different keys);
      no value is tagged with the name of a class of the package (a [PStruct c _] is an instance of a user's
-     Structure class), nor is it the translation's "unbound local" marker *)
+     Structure class), nor is it the translation's "unbound local" marker or a class object *)
   Fixpoint doc_ok (v : pyval) : bool :=
     let fix all (l : list pyval) : bool :=
         match l with [] => true | x :: t => doc_ok x && all t end in
@@ -734,7 +734,7 @@ Section Field.
         (fix alld (l : list (pyval * pyval)) : bool :=
            match l with [] => true | (k, x) :: t => doc_ok k && doc_ok x && alld t end) kv
     | PStruct c _ | PEnum c _ _ => negb (class_known tbl c)
-    | POther t _ => negb (class_known tbl t) && negb (pystr_eqb t unbound_tag)
+    | POther t _ => negb (class_known tbl t) && negb (pystr_eqb t unbound_tag) && negb (pystr_eqb t ref_tag)
     | _ => true
     end.
 
@@ -760,7 +760,8 @@ Section Field.
   Lemma doc_ok_bound j : doc_ok j = true -> is_unbound j = false.
   Proof.
     destruct j; cbn [doc_ok is_unbound]; intro H; try reflexivity.
-    apply andb_true_iff in H as [_ H]. destruct (pystr_eqb tag unbound_tag); [discriminate H | reflexivity].
+    apply andb_true_iff in H as [H _]. apply andb_true_iff in H as [_ H].
+    destruct (pystr_eqb tag unbound_tag); [discriminate H | reflexivity].
   Qed.
 
   Lemma doc_ok_dict kv : doc_ok (PDict kv) = true ->
@@ -780,7 +781,15 @@ Section Field.
       destruct (pystr_eqb cls (s2p "Structure")) eqn:E2; [|reflexivity].
       apply pystr_eqb_spec in E2. subst. vm_compute in E. discriminate E.
     - destruct (class_known tbl cls); [discriminate H|]. reflexivity.
-    - apply andb_true_iff in H as [H _]. destruct (class_known tbl tag); [discriminate H|]. reflexivity.
+    - apply andb_true_iff in H as [H _]. apply andb_true_iff in H as [H _].
+      destruct (class_known tbl tag); [discriminate H|]. reflexivity.
+  Qed.
+
+  (* processed_input is not Undefined *)
+  Lemma doc_not_classobj j n : doc_ok j = true -> py_is_classobj j n = Ok false.
+  Proof.
+    destruct j; cbn [doc_ok py_is_classobj]; intro H; try reflexivity.
+    apply andb_true_iff in H as [_ H]. destruct (pystr_eqb tag ref_tag); [discriminate H|]. reflexivity.
   Qed.
 
   (* the Map entries on which the two evaluation orders agree, along the part of the document each declaration reads *)
@@ -1452,3 +1461,348 @@ Section Field.
       reflexivity.
   Qed.
 End Field.
+
+(* ------------------------------------------------------------------ the structure-level functions *)
+
+Definition is_nil {A} (l : list A) : bool := match l with [] => true | _ => false end.
+
+(* a field name is an identifier: no "." (get_processed_input reads a mapped key as a dotted path) *)
+Definition ident_ok (n : pystr) : bool := negb (existsb (N.eqb 46%N) n).
+
+Section Struct.
+  Variable re_match : N -> pystr -> bool.
+  Variable e : env.
+  Variable ens : enums.
+  Variable h : heap.
+  Variable ext : extern.
+  Variable rec : bool -> pystr -> pyval -> res pyval.
+  Hypothesis Hrec : forall ku c j v, rec ku c j = Ok v -> is_unbound v = false.
+  Hypothesis Hext : ext_agrees re_match e ens ext.
+
+  (* the two untranslated helpers construct_fields_map calls, in the configuration the model covers (the class's
+     aggregated mapper is the no-op one: every field name maps to itself):
+       get_processed_input(key, mapper, the_dict, ...) is the_dict.get(key) when mapper[key] == key,
+       raise_errs_if_needed(cls, errors) raises InvalidStructureErr exactly when errors is not empty *)
+  Definition ext_struct_agrees : Prop :=
+    (forall n m kv eu us,
+        ident_ok n = true -> dict_get m (PStr n) = Some (PStr n) -> py_truthy eu = false ->
+        ext (s2p "get_processed_input") [PStr n; PDict m; PDict kv]
+            [(s2p "enable_undefined", eu); (s2p "use_strict_mapping", us)] =
+        Ok (match dict_get kv (PStr n) with Some v => v | None => PNone end)) /\
+    (forall cls errs,
+        ext (s2p "raise_errs_if_needed") [cls; PList errs] [] =
+        if is_nil errs then Ok PNone else Raise InvalidStructureErr).
+  Hypothesis Hext2 : ext_struct_agrees.
+
+  (* what construct_fields_map reads of the heap: cls._constants is empty, cls._enable_undefined_value unset,
+     Structure.failing_fast() true *)
+  Definition cfm_heap_ok (cn : pystr) : bool :=
+    match h cn (s2p "_constants") with
+    | None | Some (PDict []) | Some (PList []) => true
+    | _ => false
+    end &&
+    match h cn (s2p "_enable_undefined_value") with None => true | Some v => negb (py_truthy v) end &&
+    match h (s2p "Structure") (s2p "failing_fast()") with Some v => py_truthy v | None => false end.
+
+  Definition enc_fields (fds : list fdecl) : list (pyval * pyval) :=
+    map (fun fd => (PStr (fd_name fd), fld_py (fd_field fd))) fds.
+  Definition enc_kw (kw : list (pystr * pyval)) : list (pyval * pyval) :=
+    map (fun p => (PStr (fst p), snd p)) kw.
+
+  (* the class's no-op mapper knows every field *)
+  Definition noop_on (m : list (pyval * pyval)) (fds : list fdecl) : bool :=
+    forallb (fun fd => match dict_get m (PStr (fd_name fd)) with
+                       | Some (PStr s) => pystr_eqb s (fd_name fd)
+                       | _ => false
+                       end && ident_ok (fd_name fd)) fds.
+
+  Definition key_absent (acc : list (pyval * pyval)) (n : pystr) : bool :=
+    forallb (fun k' => negb (py_eq k' (PStr n))) (map fst acc).
+
+  Lemma deser_fields_names rec' ku ign kv : forall fds had kw,
+    deser_fields re_match e ens rec' ku ign fds kv had = Ok kw ->
+    forall n, In n (map fst kw) -> In n (map fd_name fds).
+  Proof.
+    induction fds as [|fd t IH]; intros had kw H n Hin.
+    - cbn [deser_fields] in H. destruct had; [discriminate H|]. inversion H; subst. destruct Hin.
+    - cbn [deser_fields] in H. cbn [map]. 
+      destruct (dict_get kv (PStr (fd_name fd))) as [v|]; [|right; exact (IH _ _ H n Hin)].
+      destruct v; try (right; exact (IH _ _ H n Hin));
+        (destruct (deser_val re_match e ens rec' ku ign (fd_field fd) _) as [w|x];
+         [ destruct (deser_fields re_match e ens rec' ku ign t kv had) as [rest|] eqn:E; [|discriminate H];
+           cbn [bind] in H; inversion H; subst; cbn [map fst] in Hin; destruct Hin as [<-|Hin];
+           [left; reflexivity | right; exact (IH _ _ E n Hin)]
+         | destruct (negb _ && is_te_ve x); [right; exact (IH _ _ H n Hin) | discriminate H] ]).
+  Qed.
+
+  Lemma meth_get2 m k d : py_hashable' k = true ->
+    py_meth ext (PDict m) (s2p "get") [k; d] [] = Ok (match dict_get m k with Some v => v | None => d end).
+  Proof.
+    intro Hk. unfold py_meth. change (pystr_eqb (s2p "get") (s2p "get")) with true. cbv iota.
+    unfold PyOpsVersioned.py_dict_get. rewrite Hk. reflexivity.
+  Qed.
+
+  Lemma meth_get1 m k : py_hashable' k = true ->
+    py_meth ext (PDict m) (s2p "get") [k] [] = Ok (match dict_get m k with Some v => v | None => PNone end).
+  Proof.
+    intro Hk. unfold py_meth. change (pystr_eqb (s2p "get") (s2p "get")) with true. cbv iota.
+    unfold PyOpsVersioned.py_dict_get. rewrite Hk. reflexivity.
+  Qed.
+
+  Lemma ref_getattr_def' n a d :
+    fld_getattr_def h (ref n) a d = Ok (match h n a with Some v => v | None => d end).
+  Proof. reflexivity. Qed.
+
+  Lemma ref_getattr' n a :
+    fld_getattr h (ref n) a = match h n a with Some v => Ok v | None => Raise AttributeError end.
+  Proof. reflexivity. Qed.
+
+  Lemma noop_on_in m fds fd : noop_on m fds = true -> In fd fds ->
+    dict_get m (PStr (fd_name fd)) = Some (PStr (fd_name fd)) /\ ident_ok (fd_name fd) = true.
+  Proof.
+    unfold noop_on. rewrite forallb_forall. intros H Hin. specialize (H fd Hin).
+    apply andb_true_iff in H as [H1 H2]. split; [|exact H2].
+    destruct (dict_get m (PStr (fd_name fd))) as [[| | |s| | | | | | | |]|]; try discriminate H1.
+    apply pystr_eqb_spec in H1. subst. reflexivity.
+  Qed.
+
+  Lemma key_absent_fresh acc n w : key_absent acc n = true -> dict_set acc (PStr n) w = acc ++ [(PStr n, w)].
+  Proof. intro H. apply dict_set_fresh. exact H. Qed.
+
+  Lemma cfm_loop_eq (R : recs) cn m kv ku ign (usm camel : pyval) :
+    cfm_heap_ok cn = true ->
+    forall fds acc errs,
+      noop_on m fds = true ->
+      NoDup (map fd_name fds) ->
+      (forall fd, In fd fds -> key_absent acc (fd_name fd) = true) ->
+      (forall fd v nm mp, In fd fds -> dict_get kv (PStr (fd_name fd)) = Some v -> py_is_none v = false ->
+           r_deserialize_single_field R (fld_py (fd_field fd)) v nm mp (PBool ku) camel (PBool ign) =
+           deser_val re_match e ens rec ku ign (fd_field fd) v) ->
+      (forall fd v, In fd fds -> dict_get kv (PStr (fd_name fd)) = Some v -> doc_ok v = true) ->
+      src_construct_fields_map_loop1 h ext R (PBool ku) (PDict m) (PDict kv) (ref cn) usm camel (PBool ign) (PBool false)
+        (fun res errs' => _ <- ext (s2p "raise_errs_if_needed") [ref cn; errs'] [] ;; Ok res)
+        (enc_fields fds) (PDict acc) (PList errs) =
+      match deser_fields re_match e ens rec ku ign fds kv (negb (is_nil errs)) with
+      | Ok kw => Ok (PDict (acc ++ enc_kw kw))
+      | Raise x => Raise x
+      end.
+  Proof.
+    intro Hheap. destruct Hext2 as [Hgpi Hraise].
+    unfold cfm_heap_ok in Hheap. apply andb_true_iff in Hheap as [Hheap Hff]. apply andb_true_iff in Hheap as [Hconst Heu].
+    induction fds as [|fd fds IH]; intros acc errs Hnoop Hnd Hfresh Hdsf Hdoc.
+    - cbn [enc_fields map src_construct_fields_map_loop1 deser_fields]. rewrite Hraise.
+      destruct errs; cbn [is_nil negb bind enc_kw map]; [rewrite app_nil_r|]; reflexivity.
+    - destruct (noop_on_in m (fd :: fds) fd Hnoop (or_introl eq_refl)) as [Hm Hid].
+      assert (Hnoop' : noop_on m fds = true).
+      { unfold noop_on in *. cbn [forallb] in Hnoop. apply andb_true_iff in Hnoop as [_ Hn]. exact Hn. }
+      inversion Hnd as [|n0 l0 Hnotin Hnd']; subst.
+      assert (IH' := fun acc errs Hf => IH acc errs Hnoop' Hnd' Hf
+                      (fun fd0 v nm mp Hin => Hdsf fd0 v nm mp (or_intror Hin))
+                      (fun fd0 v Hin => Hdoc fd0 v (or_intror Hin))).
+      assert (Hfresh' : forall fd0, In fd0 fds -> key_absent acc (fd_name fd0) = true)
+        by (intros fd0 Hin; exact (Hfresh fd0 (or_intror Hin))).
+      cbn [enc_fields map src_construct_fields_map_loop1 deser_fields]. fold (enc_fields fds).
+      rewrite meth_get2 by reflexivity. rewrite Hm. cbn [bind].
+      rewrite ref_getattr_def'.
+      assert (Hc : (t12 <- Ok (match h cn (s2p "_constants") with Some v => v | None => PList [] end) ;;
+                    py_in_dyn (PStr (fd_name fd)) t12) = Ok false).
+      { destruct (h cn (s2p "_constants")) as [[| | | |[|? ?]| | | |[|? ?]| | |]|]; try discriminate Hconst; reflexivity. }
+      rewrite Hc. cbn [bind].
+      assert (Hin : py_in_dyn (PStr (fd_name fd)) (PDict m) = Ok true).
+      { cbn [py_in_dyn py_hashable']. unfold dict_has. rewrite Hm. reflexivity. }
+      rewrite Hin. cbn [bind].
+      rewrite (Hgpi (fd_name fd) m kv (PBool false) usm Hid Hm eq_refl). cbn [bind].
+      rewrite ref_getattr_def'.
+      assert (Heu' : py_truthy (match h cn (s2p "_enable_undefined_value") with Some v => v | None => PBool false end) = false).
+      { destruct (h cn (s2p "_enable_undefined_value")) as [v|]; [|reflexivity].
+        destruct (py_truthy v); [discriminate Heu | reflexivity]. }
+      destruct (dict_get kv (PStr (fd_name fd))) as [v|] eqn:Ekv.
+      2:{ cbn [py_is_none negb py_or bind]. rewrite Heu'. cbn [py_truthy]. apply IH'. exact Hfresh'. }
+      destruct (py_is_none v) eqn:Hnone.
+      { apply is_none_eq in Hnone. subst v. cbn [py_is_none negb py_or bind]. rewrite Heu'. cbn [py_truthy].
+        apply IH'. exact Hfresh'. }
+      cbn [negb py_or bind py_truthy].
+      rewrite meth_get1 by reflexivity. cbn [bind]. rewrite meth_get2 by reflexivity. cbn [bind].
+      rewrite (doc_not_classobj v _ (Hdoc fd v (or_introl eq_refl) Ekv)). cbn [py_not bind negb].
+      rewrite ref_getattr'. destruct (h (s2p "Structure") (s2p "failing_fast()")) as [ff|]; [|discriminate Hff].
+      cbn [bind py_and]. rewrite Hff.
+      rewrite (Hdsf fd v _ _ (or_introl eq_refl) Ekv Hnone).
+      assert (Hmodel : forall X Y : res (list (pystr * pyval)),
+                 match v with PNone => X | _ => Y end = Y) by (intros X Y; destruct v; try reflexivity; discriminate Hnone).
+      rewrite Hmodel.
+      assert (Hnext : forall fd0, In fd0 fds -> forall w, key_absent (acc ++ [(PStr (fd_name fd), w)]) (fd_name fd0) = true).
+      { intros fd0 Hin0 w. pose proof (Hfresh' fd0 Hin0) as Hk0. unfold key_absent in *.
+        rewrite map_app, forallb_app. cbn [map fst forallb]. rewrite Hk0. cbn [py_eq andb].
+        destruct (pystr_eqb (fd_name fd) (fd_name fd0)) eqn:E; [|reflexivity].
+        apply pystr_eqb_spec in E. exfalso. apply Hnotin. rewrite E. apply in_map. exact Hin0. }
+      destruct (py_truthy v) eqn:Htr; cbn [bind].
+      + (* fail fast *)
+        destruct (deser_val re_match e ens rec ku ign (fd_field fd) v) as [w|x]; cbn [bind andb negb]; [|reflexivity].
+        cbn [PyOpsDerive.py_setitem py_hashable' bind]. rewrite (key_absent_fresh acc _ w (Hfresh fd (or_introl eq_refl))).
+        rewrite (IH' _ errs (fun fd0 Hin0 => Hnext fd0 Hin0 w)).
+        destruct (deser_fields re_match e ens rec ku ign fds kv (negb (is_nil errs))) as [rest|x]; [|reflexivity].
+        cbn [bind enc_kw map fst snd]. rewrite <- app_assoc. reflexivity.
+      + (* a falsy input: TypeError / ValueError are collected *)
+        destruct (deser_val re_match e ens rec ku ign (fd_field fd) v) as [w|x]; cbn [bind_or negb andb].
+        * cbn [PyOpsDerive.py_setitem py_hashable' bind_or]. rewrite (key_absent_fresh acc _ w (Hfresh fd (or_introl eq_refl))).
+          rewrite (IH' _ errs (fun fd0 Hin0 => Hnext fd0 Hin0 w)).
+          destruct (deser_fields re_match e ens rec ku ign fds kv (negb (is_nil errs))) as [rest|x]; [|reflexivity].
+          cbn [bind enc_kw map fst snd]. rewrite <- app_assoc. reflexivity.
+        * rewrite caught_te_ve. destruct (is_te_ve x); [|reflexivity].
+          cbn [PyOpsDerive.py_list_append bind]. rewrite (IH' acc (errs ++ [exn_val x]) Hfresh').
+          replace (negb (is_nil (errs ++ [exn_val x]))) with true by (destruct errs; reflexivity). reflexivity.
+  Qed.
+
+  (* construct_fields_map(field_by_name, keep_undefined, mapper, input_dict, cls, ...) for ANY record of entry points
+     whose deserialize_single_field is the model's deser_val on the fields of the class and the values the
+     document has for them *)
+  Theorem src_construct_fields_map_gen (R : recs) cn fds m kv ku ign (usm camel : pyval) :
+    cfm_heap_ok cn = true ->
+    noop_on m fds = true ->
+    NoDup (map fd_name fds) ->
+    (forall fd v nm mp, In fd fds -> dict_get kv (PStr (fd_name fd)) = Some v -> py_is_none v = false ->
+         r_deserialize_single_field R (fld_py (fd_field fd)) v nm mp (PBool ku) camel (PBool ign) =
+         deser_val re_match e ens rec ku ign (fd_field fd) v) ->
+    (forall fd v, In fd fds -> dict_get kv (PStr (fd_name fd)) = Some v -> doc_ok v = true) ->
+    src_construct_fields_map h ext R (PDict (enc_fields fds)) (PBool ku) (PDict m) (PDict kv) (ref cn) usm camel
+                             (PBool ign) (PBool false) =
+    match deser_fields re_match e ens rec ku ign fds kv false with
+    | Ok kw => Ok (PDict (enc_kw kw))
+    | Raise x => Raise x
+    end.
+  Proof.
+    intros Hheap Hnoop Hnd Hdsf Hdoc. unfold src_construct_fields_map.
+    assert (Hm : py_or_val (Ok (PDict m)) (fun _ => Ok (PDict [])) = Ok (PDict m)) by (destruct m; reflexivity).
+    rewrite Hm. cbn [bind py_dict_items].
+    exact (cfm_loop_eq R cn m kv ku ign usm camel Hheap fds [] [] Hnoop Hnd (fun _ _ => eq_refl) Hdsf Hdoc).
+  Qed.
+
+  (* ---- with the generated knot of the field-level functions *)
+  Definition fields_covered (ku : bool) (fds : list fdecl) (kv : list (pyval * pyval)) : bool :=
+    forallb (fun fd => match dict_get kv (PStr (fd_name fd)) with
+                       | Some v => doc_ok v && order_ok re_match e ens rec ku (fd_field fd) v
+                       | None => true
+                       end) fds.
+  Definition fields_depth (fds : list fdecl) : nat := fdepths (map fd_field fds).
+
+  Theorem src_construct_fields_map_eq cn fds m kv ku ign (usm camel : pyval) fuel :
+    cfm_heap_ok cn = true ->
+    noop_on m fds = true ->
+    NoDup (map fd_name fds) ->
+    fields_covered ku fds kv = true ->
+    (3 * fields_depth fds <= fuel)%nat ->
+    src_construct_fields_map h ext (F h ext rec fuel) (PDict (enc_fields fds)) (PBool ku) (PDict m) (PDict kv) (ref cn)
+                             usm camel (PBool ign) (PBool false) =
+    match deser_fields re_match e ens rec ku ign fds kv false with
+    | Ok kw => Ok (PDict (enc_kw kw))
+    | Raise x => Raise x
+    end.
+  Proof.
+    intros Hheap Hnoop Hnd Hcov Hfuel. unfold fields_covered in Hcov. rewrite forallb_forall in Hcov.
+    apply (src_construct_fields_map_gen (F h ext rec fuel) cn fds m kv ku ign usm camel Hheap Hnoop Hnd).
+    - intros fd v nm mp Hin Hv _. specialize (Hcov fd Hin). rewrite Hv in Hcov. apply andb_true_iff in Hcov as [Hd Ho].
+      apply (src_single_field_eq re_match e ens h ext rec Hrec Hext); [|exact Hd|exact Ho].
+      pose proof (fdepths_in (fd_field fd) (map fd_field fds) (in_map fd_field _ _ Hin)). unfold fields_depth in Hfuel. lia.
+    - intros fd v Hin Hv. specialize (Hcov fd Hin). rewrite Hv in Hcov. apply andb_true_iff in Hcov as [Hd _]. exact Hd.
+  Qed.
+
+  (* ---- deserialize_structure_internal: the extra-key filter
+         kwargs = {k: v for k, v in input_dict.items() if k not in field_by_name and keep_undefined and
+                   (additional_props is True or not TypedPyDefaults.ignore_invalid_...) and k not in cls._constants} *)
+  Lemma pystr_eqb_sym a b : pystr_eqb a b = pystr_eqb b a.
+  Proof.
+    destruct (pystr_eqb a b) eqn:H1; destruct (pystr_eqb b a) eqn:H2; try reflexivity.
+    - apply pystr_eqb_spec in H1. subst. rewrite pystr_eqb_refl in H2. discriminate.
+    - apply pystr_eqb_spec in H2. subst. rewrite pystr_eqb_refl in H1. discriminate.
+  Qed.
+
+  Lemma dict_has_fields (c : classdef) k : dict_has (enc_fields (c_fields c)) k = is_field_key c k.
+  Proof.
+    unfold dict_has, is_field_key, Instance.field_names. induction (c_fields c) as [|fd t IH].
+    - destruct k; reflexivity.
+    - cbn [enc_fields map dict_get]. destruct k; cbn [py_eq]; try exact IH.
+      cbn [str_in existsb]. rewrite (pystr_eqb_sym s (fd_name fd)). destruct (pystr_eqb (fd_name fd) s); [reflexivity|].
+      exact IH.
+  Qed.
+
+  Lemma keys_distinct_filter (p : pyval * pyval -> bool) : forall kv seen seen',
+    (forall k, In k seen' -> In k seen) -> keys_distinct seen kv = true -> keys_distinct seen' (filter p kv) = true.
+  Proof.
+    induction kv as [|[k v] t IH]; intros seen seen' Hinc H; [reflexivity|].
+    cbn [keys_distinct] in H. apply andb_true_iff in H as [H1 H2]. cbn [filter].
+    destruct (p (k, v)).
+    - cbn [keys_distinct]. apply andb_true_iff. split.
+      + apply forallb_forall. intros k' Hk'. rewrite forallb_forall in H1. exact (H1 k' (Hinc k' Hk')).
+      + apply (IH (seen ++ [k])); [|exact H2]. intros k' Hk'. apply in_app_or in Hk'. apply in_or_app.
+        destruct Hk' as [Hk'|Hk']; [left; exact (Hinc _ Hk') | right; exact Hk'].
+    - apply (IH (seen ++ [k])); [|exact H2]. intros k' Hk'. apply in_or_app. left. exact (Hinc _ Hk').
+  Qed.
+
+  Lemma dict_build_distinct : forall kv acc,
+    forallb (fun p => py_hashable (fst p)) kv = true -> keys_distinct (map fst acc) kv = true ->
+    dict_build acc kv = Ok (acc ++ kv).
+  Proof.
+    induction kv as [|[k v] t IH]; intros acc Hh Hd; [cbn; rewrite app_nil_r; reflexivity|].
+    cbn [forallb fst] in Hh. apply andb_true_iff in Hh as [Hk Hh]. cbn [keys_distinct] in Hd.
+    apply andb_true_iff in Hd as [H1 H2]. cbn [dict_build]. rewrite hashable_eq, Hk.
+    rewrite (dict_set_fresh _ _ _ H1). rewrite IH; [rewrite <- app_assoc; reflexivity | exact Hh | rewrite map_app; exact H2].
+  Qed.
+
+  Theorem src_extra_keys_eq (R : recs) cn (c : classdef) kv ku (flag : bool) :
+    h (s2p "TypedPyDefaults") (s2p "ignore_invalid_additional_properties_in_deserialization") = Some (PBool flag) ->
+    match h cn (s2p "_constants") with None | Some (PDict []) | Some (PList []) => true | _ => false end = true ->
+    forallb (fun p => py_hashable (fst p)) kv = true -> keys_distinct [] kv = true ->
+    (r <- src_deserialize_structure_internal_comp_kwargs h ext R (PBool ku) (PDict (enc_fields (c_fields c)))
+                                                        (PBool (c_additional c)) (ref cn) kv ;; py_dict_of r) =
+    Ok (PDict (if ku && (c_additional c || negb flag)
+               then filter (fun p => negb (is_field_key c (fst p))) kv else [])).
+  Proof.
+    intros Hflag Hconst Hh Hd. unfold src_deserialize_structure_internal_comp_kwargs.
+    assert (Hstep : forall k v : pyval,
+               py_hashable k = true ->
+               (c0 <- py_and (py_not (py_in_dyn k (PDict (enc_fields (c_fields c)))))
+                      (fun _ => py_and (Ok (py_truthy (PBool ku)))
+                      (fun _ => py_and (py_or (Ok (py_is_true (PBool (c_additional c))))
+                                              (fun _ => py_not (t80 <- fld_getattr h (ref (s2p "TypedPyDefaults"))
+                                                                      (s2p "ignore_invalid_additional_properties_in_deserialization") ;;
+                                                                Ok (py_truthy t80))))
+                      (fun _ => t81 <- fld_getattr_def h (ref cn) (s2p "_constants") (PList []) ;;
+                                py_not (py_in_dyn k t81)))) ;;
+                if c0 then Ok (Some (k, v)) else Ok None) =
+               Ok (if negb (is_field_key c k) && (ku && (c_additional c || negb flag)) then Some (k, v) else None)).
+    { intros k v Hk. cbn [py_in_dyn]. rewrite hashable_eq, Hk, dict_has_fields.
+      rewrite ref_getattr', Hflag, ref_getattr_def'.
+      assert (Hc : (t81 <- Ok (match h cn (s2p "_constants") with Some v0 => v0 | None => PList [] end) ;;
+                    py_not (py_in_dyn k t81)) = Ok true).
+      { destruct (h cn (s2p "_constants")) as [[| | | |[|? ?]| | | |[|? ?]| | |]|]; try discriminate Hconst;
+          cbn [bind py_in_dyn py_in_lit py_in existsb py_not negb]; try reflexivity.
+        rewrite hashable_eq, Hk. reflexivity. }
+      rewrite Hc.
+      destruct (is_field_key c k), ku, (c_additional c), flag; reflexivity. }
+    assert (Hfil : forall l, forallb (fun p => py_hashable (fst p)) l = true ->
+               filterM (fun '((v_k, v_v) : pyval * pyval) =>
+                 (c0 <- py_and (py_not (py_in_dyn v_k (PDict (enc_fields (c_fields c)))))
+                      (fun _ => py_and (Ok (py_truthy (PBool ku)))
+                      (fun _ => py_and (py_or (Ok (py_is_true (PBool (c_additional c))))
+                                              (fun _ => py_not (t80 <- fld_getattr h (ref (s2p "TypedPyDefaults"))
+                                                                      (s2p "ignore_invalid_additional_properties_in_deserialization") ;;
+                                                                Ok (py_truthy t80))))
+                      (fun _ => t81 <- fld_getattr_def h (ref cn) (s2p "_constants") (PList []) ;;
+                                py_not (py_in_dyn v_k t81)))) ;;
+                  if c0 then Ok (Some (v_k, v_v)) else Ok None)) l =
+               Ok (filter (fun p => negb (is_field_key c (fst p)) && (ku && (c_additional c || negb flag))) l)).
+    { induction l as [|[k v] t IH]; intro Hl; [reflexivity|].
+      cbn [forallb fst] in Hl. apply andb_true_iff in Hl as [Hk Hl].
+      cbn [filterM filter fst]. rewrite (Hstep k v Hk). cbn [bind]. rewrite (IH Hl). cbn [bind].
+      destruct (negb (is_field_key c k) && (ku && (c_additional c || negb flag))); reflexivity. }
+    rewrite (Hfil kv Hh). cbn [bind]. unfold py_dict_of.
+    rewrite (dict_build_distinct _ []).
+    - cbn [bind app]. f_equal. f_equal.
+      destruct (ku && (c_additional c || negb flag)).
+      + apply filter_ext. intros p. rewrite andb_true_r. reflexivity.
+      + clear. induction kv as [|p t IH]; [reflexivity|]. cbn [filter]. rewrite andb_false_r. exact IH.
+    - clear -Hh. induction kv as [|p t IH]; [reflexivity|]. cbn [forallb filter] in *.
+      apply andb_true_iff in Hh as [H1 H2]. destruct (negb _ && _); [cbn [forallb]; rewrite H1|]; exact (IH H2).
+    - apply (keys_distinct_filter _ kv [] []); [intros k Hk; exact Hk | exact Hd].
+  Qed.
+End Struct.
